@@ -35,6 +35,8 @@ type procCall struct {
 	Hash   common.Hash
 	Events []string
 	Err    string
+	// for reorg calls: the last block that remains recorded after the rewind (0 if none)
+	LastKept uint64
 }
 
 // memProc is a recording processor usable behind the real sync.EVMDriver
@@ -81,12 +83,16 @@ func (p *memProc) ProcessBlock(ctx context.Context, b aggsync.Block) error {
 func (p *memProc) Reorg(ctx context.Context, first uint64) error {
 	p.mu.Lock()
 	defer p.mu.Unlock()
-	p.calls = append(p.calls, procCall{Op: "reorg", Num: first})
 	k := len(p.blocks)
 	for k > 0 && p.blocks[k-1].Num >= first {
 		k--
 	}
 	p.blocks = p.blocks[:k]
+	kept := uint64(0)
+	if k > 0 {
+		kept = p.blocks[k-1].Num
+	}
+	p.calls = append(p.calls, procCall{Op: "reorg", Num: first, LastKept: kept})
 	if p.onReorg != nil {
 		p.onReorg(first)
 	}
